@@ -22,6 +22,12 @@ def run(ctx):
                 js, g = E.api_jobs(ctx, s, c, [2, 3] if quick else [2, 3, 4], ops=(0, 1), second_lex=True,
                                    timeout=(200 if quick else 900), tagx='s')
                 jobs += js
+    # buffer popped inside a user yywrap() (include-file idiom): scanning resumes in the buffer pushed before
+    for s in common.select(ctx, corpus.specs(names=['lit1'] if quick else ['lit1', 'bol1'])):
+        for c in ([C('Cem')] if quick else [C('Cem'), C('r', api='r')]):
+            js, g = E.wrap_jobs(ctx, s, c, [1, 2] if quick else [0, 1, 2, 3], timeout=(200 if quick else 900), mores=(2,))
+            if common.gen_ok(ctx, g, s, c, 'wrap'):
+                jobs += js
     ctx.run_cbmc(jobs)
     common.std_assumptions(ctx)
     ctx.assume('buffers made by yy_scan_buffer (in place) and yy_scan_bytes (private copy); NUL-free contents so that the unread text of a buffer is well defined by position')
